@@ -28,6 +28,11 @@ CASES = {
     # BLOCKHASH applied to a Bool-typed stack item
     "blockhash-of-bool": (
         {MAIN: "PUSH1 0x02 PUSH1 0x04 CALLDATALOAD LT BLOCKHASH POP PUSH1 0x01 PUSH0 MSTORE PUSH1 0x20 PUSH0 RETURN"}, 1, False, {}, ["C01"]),
+    # zero-size RETURN / REVERT / LOG never touch memory, whatever the offset
+    "return-zero-size-huge-offset": (
+        {MAIN: "PUSH1 0x04 CALLDATALOAD PUSH @r JUMPI PUSH0 PUSH4 0x00200000 RETURN r: PUSH0 PUSH4 0x00200000 REVERT"}, 1, False, {}, ["C01"]),
+    "log-zero-size-huge-offset": (
+        {MAIN: f"PUSH0 PUSH4 0x00200000 LOG0 PUSH1 0x07 PUSH0 MSTORE {RET}"}, 1, False, {}, ["C01"]),
     # plain sanity cases that must always agree
     "branch-on-arg": (
         {MAIN: f"PUSH1 0x2a PUSH1 0x04 CALLDATALOAD EQ PUSH @t JUMPI PUSH1 0x01 PUSH0 MSTORE {RET} t: PUSH1 0x02 PUSH0 MSTORE PUSH1 0x20 PUSH0 REVERT"},
